@@ -98,6 +98,7 @@ type c09Shape struct {
 	n     int
 	std   map[int]bool
 	alias2 bool // main imports file 1 under two aliases
+	sameBase bool // every imported file is called mod.tsh and lies in a directory of its own
 }
 
 func c09Shapes() []c09Shape {
@@ -114,6 +115,10 @@ func c09Shapes() []c09Shape {
 		{name: "two-aliases", n: 2, edges: map[int][]int{0: {1}}, alias2: true},
 		{name: "std-and-local", n: 2, edges: map[int][]int{0: {1}}, std: map[int]bool{0: true}},
 		{name: "local-imports-std", n: 2, edges: map[int][]int{0: {1}}, std: map[int]bool{1: true}},
+		// equal file names in different directories
+		{name: "fan2-same-basename", n: 3, edges: map[int][]int{0: {1, 2}}, sameBase: true},
+		{name: "chain3-same-basename", n: 3, edges: map[int][]int{0: {1}, 1: {2}}, sameBase: true},
+		{name: "diamond-same-basename", n: 4, edges: map[int][]int{0: {1, 2}, 1: {3}, 2: {3}}, sameBase: true},
 		{name: "both-import-std", n: 3, edges: map[int][]int{0: {1, 2}}, std: map[int]bool{0: true, 1: true, 2: true}},
 	}
 }
@@ -126,6 +131,9 @@ func (s c09Shape) build(salts map[int]int) *Program {
 		names[k] = fmt.Sprintf("lib%d.tsh", k)
 		if k%2 == 0 {
 			names[k] = fmt.Sprintf("sub/lib%d.tsh", k)
+		}
+		if s.sameBase {
+			names[k] = fmt.Sprintf("d%d/mod.tsh", k)
 		}
 	}
 	// count in-degree to find files reached along several paths
